@@ -452,18 +452,18 @@ def run_mutator_job(prog, job):
         if info['kind'] in ('ok', 'result', 'panic'):
             for k, f in sit.items():
                 if not cov[k]:
-                    tq0 = time.time(); r = sv.check(*(pc + [f])); tq += time.time() - tq0
+                    tq0 = time.time(); r = eng.check(pc + [f]); tq += time.time() - tq0
                     if r == z3.sat: cov[k] = True
         if len(res['samples']) < 3:
             try:
-                if o.state.model is None and sv.check(*pc) == z3.sat: o.state.model = sv.model()
+                if o.state.model is None and eng.check(list(pc)) == z3.sat: o.state.model = sv.model()
                 res['samples'].append({'op': op, 'N': N, 'outcome': key, 'args': ctx.args_dict(o.state.model),
                                        'pre': ctx.A.model_dict(o.state.model), 'path_len': o.state.steps, 'obligations': len(mine)})
             except Exception:
                 pass
         while remaining:
             neg = z3.Not(z3.And(*[f for (_, f) in remaining]))
-            tq0 = time.time(); r = sv.check(*(pc + [neg])); tq += time.time() - tq0
+            tq0 = time.time(); r = eng.check(pc + [neg]); tq += time.time() - tq0
             res['assert_queries'] += 1
             if job.get('export_smt2') and len(res['smt2']) < job['export_smt2']:
                 res['smt2'].append(export_smt2(sv, pc + [neg], 'sat' if r == z3.sat else 'unsat'))
@@ -492,7 +492,7 @@ def run_mutator_job(prog, job):
         lem = [(n, f) for (n, f) in ob if n.startswith(LEMMA_PREFIXES) and not n.startswith(prefixes)]
         if lem and len(res['lemma_violations']) < 4:
             neg = z3.Not(z3.And(*[f for (_, f) in lem]))
-            tq0 = time.time(); r = sv.check(*(pc + [neg])); tq += time.time() - tq0
+            tq0 = time.time(); r = eng.check(pc + [neg]); tq += time.time() - tq0
             res['lemma_queries'] += 1
             if r == z3.sat:
                 m = sv.model()
